@@ -283,4 +283,133 @@ theorem AStore.mem_of_get (s : AStore) (k : UInt64) (e : Entry) (h : s.get k = s
     have : p = (k, e) := by cases p; simp_all
     exact this ▸ hm
 
+/-! ### first-match walks of the failure and cut lookups -/
+
+theorem firstZone_spec (H : Bytes → UInt64) (fs : FStore) (qclass : UInt16) (zs : List Bytes) (f : FEntry)
+    (h : firstZone H fs qclass zs = some f) :
+    f.active = true ∧ f.kind = FKind.zone ∧ f.qclass = qclass ∧ f.name ∈ zs := by
+  induction zs with
+  | nil => simp [firstZone] at h
+  | cons z t ih =>
+    unfold firstZone at h
+    cases hl : loadZone H fs z qclass with
+    | none =>
+      simp only [hl] at h
+      obtain ⟨a, b, c, d⟩ := ih h
+      exact ⟨a, b, c, List.mem_cons_of_mem _ d⟩
+    | some e =>
+      simp only [hl] at h
+      by_cases ha : e.active = true
+      · simp only [ha, if_true, Option.some.injEq] at h
+        subst h
+        unfold loadZone at hl
+        cases hs : fs (failureZoneHash H z qclass) with
+        | none => simp [hs] at hl
+        | some e' =>
+          simp only [hs] at hl
+          split at hl
+          · rename_i hc
+            simp only [Option.some.injEq] at hl
+            subst hl
+            simp only [Bool.and_eq_true, beq_iff_eq] at hc
+            exact ⟨ha, hc.1.1, hc.2, by rw [hc.1.2]; exact List.mem_cons_self⟩
+          · cases hl
+      · simp only [ha] at h
+        obtain ⟨a, b, c, d⟩ := ih h
+        exact ⟨a, b, c, List.mem_cons_of_mem _ d⟩
+
+theorem firstZoneWire_spec (H : Bytes → UInt64) (fs : FStore) (qclass : UInt16) (zs : List Bytes) (f : FEntry)
+    (h : firstZoneWire H fs qclass zs = some f) :
+    f.active = true ∧ f.kind = FKind.zone ∧ f.qclass = qclass ∧
+      ∃ z ∈ zs, ∃ pz, present z = some pz ∧ foldName pz = foldName f.name := by
+  induction zs with
+  | nil => simp [firstZoneWire] at h
+  | cons z t ih =>
+    have tail : firstZoneWire H fs qclass t = some f →
+        f.active = true ∧ f.kind = FKind.zone ∧ f.qclass = qclass ∧
+          ∃ z' ∈ z :: t, ∃ pz, present z' = some pz ∧ foldName pz = foldName f.name := by
+      intro hg
+      obtain ⟨a, b, c, z', hz', rest⟩ := ih hg
+      exact ⟨a, b, c, z', List.mem_cons_of_mem _ hz', rest⟩
+    unfold firstZoneWire at h
+    cases hk : keyWirePreimage z 6 qclass false with
+    | none => simp only [hk] at h; exact tail h
+    | some pre =>
+      simp only [hk] at h
+      cases hs : fs (H pre ^^^ failureZoneHashSalt) with
+      | none => simp only [hs] at h; exact tail h
+      | some e =>
+        simp only [hs] at h
+        split at h
+        · rename_i hc
+          simp only [Option.some.injEq] at h
+          subst h
+          simp only [Bool.and_eq_true, beq_iff_eq] at hc
+          obtain ⟨p, hp, hf⟩ := (wireNameEq_iff' z e.name).mp hc.1.2
+          exact ⟨hc.2, hc.1.1.1, hc.1.1.2, z, List.mem_cons_self, p, hp, hf⟩
+        · exact tail h
+
+theorem firstCut_spec (cs : List Cut) (qclass : UInt16) (cands : List Bytes) (c : Cut)
+    (h : firstCut cs qclass cands = some c) :
+    c ∈ cs ∧ c.active = true ∧ c.qclass = qclass ∧ c.name ∈ cands := by
+  induction cands with
+  | nil => simp [firstCut] at h
+  | cons cand t ih =>
+    have tail : firstCut cs qclass t = some c →
+        c ∈ cs ∧ c.active = true ∧ c.qclass = qclass ∧ c.name ∈ cand :: t := by
+      intro hg
+      obtain ⟨a, b, c', d⟩ := ih hg
+      exact ⟨a, b, c', List.mem_cons_of_mem _ d⟩
+    unfold firstCut at h
+    cases hf : findCut cs cand qclass with
+    | none => simp only [hf] at h; exact tail h
+    | some k =>
+      simp only [hf] at h
+      by_cases ha : k.active = true
+      · simp only [ha, if_true, Option.some.injEq] at h
+        subst h
+        unfold findCut at hf
+        have hm := List.mem_of_find?_eq_some hf
+        have hp := List.find?_some hf
+        simp only [Bool.and_eq_true, beq_iff_eq] at hp
+        exact ⟨hm, ha, hp.2, by rw [hp.1]; exact List.mem_cons_self⟩
+      · simp only [ha] at h
+        exact tail h
+
+theorem firstCutWire_spec (H : Bytes → UInt64) (byHash : UInt64 → Option Cut) (qclass : UInt16) (cands : List Bytes)
+    (c : Cut) (h : firstCutWire H byHash qclass cands = some c) :
+    c.active = true ∧ c.qclass = qclass ∧
+      ∃ z ∈ cands, ∃ pz, present z = some pz ∧ foldName pz = foldName c.name := by
+  induction cands with
+  | nil => simp [firstCutWire] at h
+  | cons cand t ih =>
+    have tail : firstCutWire H byHash qclass t = some c →
+        c.active = true ∧ c.qclass = qclass ∧
+          ∃ z ∈ cand :: t, ∃ pz, present z = some pz ∧ foldName pz = foldName c.name := by
+      intro hg
+      obtain ⟨a, b, z, hz, rest⟩ := ih hg
+      exact ⟨a, b, z, List.mem_cons_of_mem _ hz, rest⟩
+    unfold firstCutWire at h
+    cases hk : keyWirePreimage cand 0 qclass false with
+    | none => simp only [hk] at h; exact tail h
+    | some pre =>
+      simp only [hk] at h
+      cases hs : byHash (H pre ^^^ nxDomainCutHashSalt) with
+      | none => simp only [hs] at h; exact tail h
+      | some k =>
+        simp only [hs] at h
+        split at h
+        · rename_i hc
+          simp only [Option.some.injEq] at h
+          subst h
+          simp only [Bool.and_eq_true, beq_iff_eq] at hc
+          obtain ⟨p, hp, hf⟩ := (wireNameEq_iff' cand k.name).mp hc.1.2
+          exact ⟨hc.2, hc.1.1.1, cand, List.mem_cons_self, p, hp, hf⟩
+        · exact tail h
+
+theorem mem_remove (s : AStore) (k : UInt64) (p : UInt64 × Entry) :
+    p ∈ s.remove k ↔ p ∈ s ∧ p.1 ≠ k := by
+  unfold AStore.remove
+  simp [List.mem_filter]
+
 end SdnsVerif.Lemmas.CacheKey
